@@ -231,7 +231,10 @@ pub fn run(ctx: &Ctx) {
     if kind == "and_within" {
       // the first line is `root = <A> .and <B>` (possibly inside a context)
       let first = id.schemas[0].lines().next().unwrap_or("");
-      if x_map && first.matches('{').count() >= 2 {
+      // map operands written out or reached through (possibly parenthesised) rule names
+      let map_rules: Vec<&str> = id.schemas[0].lines().skip(1).filter(|l| l.contains('{')).filter_map(|l| l.split_whitespace().next()).collect();
+      let named_maps = first.split(|c: char| !(c.is_alphanumeric() || c == '-' || c == '_' || c == '.' || c == '@' || c == '$')).filter(|w| map_rules.contains(w)).count();
+      if x_map && first.matches('{').count() + named_maps >= 2 {
         return Some("and_within_map_operands");
       }
       if x_ctl {
